@@ -1,6 +1,7 @@
 """C16 - datagrams reach the right IKE_SA and the IKE_SA table stays exact."""
 import json
 import random
+from unittest import mock
 import struct
 
 from props import shellcommon as sc
@@ -51,6 +52,19 @@ class TableOracle:
         self.succ, self.listed, self.keep = {}, {}, []
 
     def __call__(self, pair, action, sent):
+        # routing: the IkeSa that was handed a datagram is the one whose local SPI the header selects
+        for sa, data in getattr(self, 'routed', []):
+            if len(data) >= 28 and not (data[18] == 34 and not data[19] & 0x20):
+                want = data[8:16] if data[19] & 0x08 else data[0:8]
+                self.ctx.count('routing:judged')
+                if bytes(sa.my_spi) != want:
+                    self.fail(pair, 'routing:wrong-ike-sa',
+                              f'datagram {data[:28].hex()} (initiator flag {bool(data[19] & 0x08)}) selects local SPI '
+                              f'{want.hex()} but was handed to the IKE_SA with local SPI {sa.my_spi.hex()} after {action}')
+                    del self.routed[:]
+                    return
+        if hasattr(self, 'routed'):
+            del self.routed[:]
         for ep in (pair.A, pair.B):
             t = ep.controller.ike_sas
             # an IKE_SA created by a rekey is registered when (and only when) the rekey has completed
@@ -168,8 +182,20 @@ def run(ctx, runs, with_oracle, record):
         with Pair(seed=seed, **conf) as p:
             p.sim_seed = seed
             orc = TableOracle(ctx, random.Random(seed))
+            routed = []
+            patcher = None
             if with_oracle:
                 p.hooks.append(orc)
+                # which IkeSa object every datagram was handed to (judged against the header by the oracle)
+                import ikesa as _ikesa
+                inner_pm = _ikesa.IkeSa.process_message
+
+                def pm(self_, data, inner_pm=inner_pm, routed=routed):
+                    routed.append((self_, bytes(data)))
+                    return inner_pm(self_, data)
+                patcher = mock.patch.object(_ikesa.IkeSa, 'process_message', pm)
+                patcher.start()
+                orc.routed = routed
             rec = CRecorder(p) if record else None
             if rec:
                 rec.__enter__()
@@ -185,6 +211,8 @@ def run(ctx, runs, with_oracle, record):
             finally:
                 if rec:
                     rec.__exit__(None, None, None)
+                if patcher:
+                    patcher.stop()
             fails += orc.fails
             results.append((name, conf, seed, actions, rec))
         if len(fails) > 2:
@@ -223,9 +251,10 @@ def oracle(ctx, deep):
     if not deep:
         keep = ('handshake', 'rekey_ike', 'rekey_retransmitted', 'rekey_dup_everything', 'simultaneous_initiation',
                 'delete_retransmitted', 'simultaneous_rekey_ike', 'delete_ike', 'lost_everything',
-                'rekey_ike+corrupt', 'simultaneous_rekey_ike+corrupt', 'rekey_ike_from_responder+corrupt')
+                'rekey_ike+corrupt', 'simultaneous_rekey_ike+corrupt', 'rekey_ike_from_responder+corrupt',
+                'ike_spi_reuse', 'postponed_rekey_then_child')
         runs = [r for r in runs if r[0].split('/')[0] in keep or r[0].startswith('walk')]
-        runs = [r for r in runs if not r[0].endswith(('conf1', 'conf2'))][:24]
+        runs = [r for r in runs if not r[0].endswith(('conf1', 'conf2'))][:26]
     fails, _ = run(ctx, runs, with_oracle=True, record=False)
     return fails
 
